@@ -47,7 +47,7 @@ pub fn streams(args: &[String]) {
     let watchdog = Duration::from_millis(req["watchdog_ms"].as_u64().unwrap_or(30000));
     let pidfile = jstr(&req, "pidfile").to_string();
     let (sleep_us, max_accept) = match writer.as_str() {
-        "plain" => (0, usize::MAX),
+        "plain" | "mapped" => (0, usize::MAX),
         "slow" => (300, usize::MAX),
         "trickle" => (0, 7),
         _ => panic!("writer"),
@@ -58,14 +58,25 @@ pub fn streams(args: &[String]) {
     let (tx, rx) = mpsc::channel();
     let (ow2, ew2) = (ow.clone(), ew.clone());
     let t0 = Instant::now();
+    let mapped_writers = writer == "mapped";
     std::thread::spawn(move || {
         let mut cmd = Command::new(child_bin);
         cmd.arg(script).env("VP_CHILD_PIDFILE", pidfile).stdin(std::process::Stdio::null());
-        let res = if api == "output" {
-            cmd.output_and_write_streams(ow2, ew2)
-                .map(|o| (o.status.code(), Some(vpharness::hex(&o.stdout)), Some(vpharness::hex(&o.stderr))))
-        } else {
-            cmd.spawn_and_write_streams(ow2, ew2).and_then(|mut c| c.wait()).map(|s| (s.code(), None, None))
+        fn pfx(p: &'static [u8]) -> impl Fn(Vec<u8>) -> Vec<u8> + Sync + Send + 'static {
+            move |mut l: Vec<u8>| {
+                let mut out = p.to_vec();
+                out.append(&mut l);
+                out
+            }
+        }
+        let res = match (api.as_str(), mapped_writers) {
+            ("output", false) => cmd.output_and_write_streams(ow2, ew2).map(|o| (o.status.code(), Some(vpharness::hex(&o.stdout)), Some(vpharness::hex(&o.stderr)))),
+            // the documented use: prefix every line of the child's output while streaming it
+            ("output", true) => cmd
+                .output_and_write_streams(line_mapped(ow2, pfx(b"O> ")), line_mapped(ew2, pfx(b"E> ")))
+                .map(|o| (o.status.code(), Some(vpharness::hex(&o.stdout)), Some(vpharness::hex(&o.stderr)))),
+            (_, false) => cmd.spawn_and_write_streams(ow2, ew2).and_then(|mut c| c.wait()).map(|s| (s.code(), None, None)),
+            (_, true) => cmd.spawn_and_write_streams(line_mapped(ow2, pfx(b"O> ")), line_mapped(ew2, pfx(b"E> "))).and_then(|mut c| c.wait()).map(|s| (s.code(), None, None)),
         };
         let _ = tx.send(res.map_err(|e| format!("{e:?}")));
     });
@@ -237,6 +248,16 @@ pub fn writers(args: &[String]) {
                     }
                 }
                 check("line_mapped+drop", &out, &want);
+                // 1b. the same with flush() after every write call: flushing must not emit a partial segment
+                let mut out = Vec::new();
+                {
+                    let mut w = line_mapped(&mut out, mapf);
+                    for c in &chunks {
+                        w.write_all(c).unwrap();
+                        w.flush().unwrap();
+                    }
+                }
+                check("line_mapped+flush-between-writes+drop", &out, &want);
                 // 2. mapped, end by unwrap
                 let mut out = Vec::new();
                 {
